@@ -742,4 +742,68 @@ drv_block_for_capacity(size_t target, bool serial)
     return 0;
 }
 
+/* drv_learn_capacity with a first guess of the caller's: two probes when it is right */
+static size_t
+drv_learn_capacity_hinted(size_t bsz, size_t hint)
+{
+    struct drv_capent *e = drv_capent_for(bsz);
+    if (e->have && e->bsz == bsz)
+        return e->cap;
+    if (hint >= 12 && drv_probe_accepts(true, bsz, hint) == 1 && drv_probe_accepts(true, bsz, hint + 1) == 0) {
+        e->bsz = bsz;
+        e->have = 1;
+        e->serial = 0;
+        return e->cap = hint;
+    }
+    return drv_learn_capacity(bsz);
+}
+
+/* The same without the assumption that the receiver keeps about sizeof(RPFrame)
+ * octets of a block for itself.  What it keeps is first read off a block of
+ * 512 octets (cheap probes) and tried; then the 33 sizes above; then the
+ * smallest block size whose learned capacity reaches `target` is searched by
+ * bisection (capacities are taken to grow with the block size).  The result is
+ * always verified against the learned capacity, never assumed.
+ * 0: no block size up to target + sizeof(RPFrame) + 1024 shows that capacity. */
+static size_t
+drv_block_for_capacity_wide(size_t target, bool serial)
+{
+    const size_t c512 = drv_learn_capacity(512);
+    size_t kept = 0;
+    /* A receiver that does not take the request of c512 + 1 octets into a much
+     * larger block either refuses it for another reason than its length: what
+     * its answers show is no capacity, and no block is searched for. */
+    static signed char sane; /* 0 not asked, 1 yes, -1 no */
+    if (sane == 0)
+        sane = (c512 != DRV_CAP_UNKNOWN && drv_probe_accepts(true, 2048, c512 ? c512 + 1 : 12) == 1) ? 1 : -1;
+    if (sane < 0)
+        return 0;
+    if (c512 != 0 && c512 < 512) {
+        kept = 512 - c512;
+        if (drv_learn_capacity_hinted(target + kept, target) == target && (!serial || drv_capacity_serial_agrees(target + kept)))
+            return target + kept;
+    }
+    const size_t bsz = drv_block_for_capacity(target, serial);
+    if (bsz != 0)
+        return bsz;
+    size_t lo = target ? target - 1 : 0; /* a block cannot receive a frame longer than itself */
+    size_t hi = target + sizeof(RPFrame) + 1024;
+    const size_t chi = drv_learn_capacity_hinted(hi, kept && hi > kept ? hi - kept : 0);
+    if (chi == DRV_CAP_UNKNOWN || chi < target)
+        return 0;
+    while (hi - lo > 1) {
+        const size_t mid = lo + (hi - lo) / 2;
+        const size_t c = drv_learn_capacity_hinted(mid, kept && mid > kept ? mid - kept : 0);
+        if (c == DRV_CAP_UNKNOWN)
+            return 0;
+        if (c >= target)
+            hi = mid;
+        else
+            lo = mid;
+    }
+    if (drv_learn_capacity(hi) != target || (serial && !drv_capacity_serial_agrees(hi)))
+        return 0;
+    return hi;
+}
+
 #endif /* VERIF_REGP_REF_H */
